@@ -162,7 +162,7 @@ static char *deep_json(int depth, int obj)
 
 static void gen_case(long idx)
 {
-	int cls = (int)vh_below(&rng, 20);
+	int cls = (int)vh_below(&rng, 21);
 	/* huge and deeply nested inputs cost milliseconds each under ASan: 1 in 12 of their share */
 	if ((cls == 8 || cls == 9) && vh_below(&rng, 12)) cls = (int)vh_below(&rng, 8);
 	int kidx = (int)vh_below(&rng, NKEYS + 1) - 1;	/* -1: alg none */
@@ -311,6 +311,34 @@ static void gen_case(long idx)
 		free(t);
 		break;
 	}
+	case 20: { /* signature of exactly the right length with structured content: zero / all-ones halves, 0..01, modulus-sized extremes */
+		char *t = make_valid(kidx, HDRS[0], PAYLOADS[vh_below(&rng, 3)]), *d = strrchr(t, '.');
+		unsigned char sg[1100];
+		long sl = d ? vh_b64u_dec(d + 1, strlen(d + 1), sg) : -1;
+		if (sl > 0 && sl <= 1024) {
+			size_t w = (size_t)sl / 2, n = (size_t)sl;
+			char *s64;
+			switch (vh_below(&rng, 10)) {
+			case 0: memset(sg, 0, n); break;
+			case 1: memset(sg, 0, w); break;			/* first half (r) zero */
+			case 2: memset(sg + w, 0, n - w); break;		/* second half (s) zero */
+			case 3: memset(sg, 0xff, n); break;
+			case 4: memset(sg, 0xff, w); break;
+			case 5: memset(sg + w, 0xff, n - w); break;
+			case 6: memset(sg, 0, n); sg[n - 1] = 1; break;
+			case 7: memset(sg, 0, n); sg[w - 1] = 1; sg[n - 1] = 1; break;	/* r = s = 1 */
+			case 8: memset(sg, 0, n); sg[0] = 0x80; break;
+			default: memset(sg, 0, w); sg[w - 1] = 1; break;	/* r = 1, s genuine */
+			}
+			*d = 0;
+			s64 = vh_b64u_enc_dup(sg, n);
+			tok = malloc(strlen(t) + strlen(s64) + 2);
+			sprintf(tok, "%s.%s", t, s64);
+			free(s64); free(t);
+		} else
+			tok = t;
+		break;
+	}
 	default: { /* empty / tiny */
 		static const char *TINY[] = { "", ".", "..", "...", "a", "a.b", "a.b.c", "e30.e30.", "e30..", ".e30.", "e30.e30", "=", "=.=.=", "A.A.A", "AA.AA.AA" };
 		tok = strdup(TINY[vh_below(&rng, 15)]);
@@ -359,7 +387,7 @@ int main(int argc, char **argv)
 		}
 	}
 	printf("[\"STATS\",%lu,%lu,%lu,%lu", n_tokens, n_verify, n_accept, cb_calls);
-	for (int c = 0; c < 20; c++) printf(",%lu", gen_class[c]);
+	for (int c = 0; c < 21; c++) printf(",%lu", gen_class[c]);
 	printf("]\n");
 	teardown();
 	return 0;
